@@ -15,7 +15,7 @@ pub fn def() -> PropertyDef {
     PropertyDef {
         id: "C20",
         level: "exploration",
-        props: |_| vec![Box::new(SetterHistory) as Box<dyn DynProp>],
+        props: |_| vec![Box::new(SetterHistory) as Box<dyn DynProp>, Box::new(UnloadedCondition) as Box<dyn DynProp>],
         extra: no_extra,
         replay_custom: no_custom,
         assumptions: &[
@@ -403,6 +403,95 @@ impl Prop for SetterHistory {
         r.class_if(c.ops.is_empty(), "defaults-only");
         r.class_if(clamped > 0, "clamp-exercised");
         r.class(format!("ops:{}", match c.ops.len() { 0 => "0", 1..=4 => "1-4", 5..=12 => "5-12", _ => "13-24" }));
+        Ok(r)
+    }
+}
+
+/// The setters' contract does not depend on a voice having been loaded: the same histories on a
+/// plain `Condition::default()` (whose rate and frame period are still 0 and which has no
+/// per-stream tables yet, so the per-stream setters are left out).
+#[derive(Debug, Clone, Serialize)]
+pub struct UnloadedCase {
+    pub ops: Vec<Op>,
+}
+
+pub struct UnloadedCondition;
+
+impl Prop for UnloadedCondition {
+    type Case = UnloadedCase;
+    fn name(&self) -> String {
+        "unloaded-condition".into()
+    }
+    fn rule(&self) -> String {
+        "history of 0..12 calls of the setters that need no per-stream table (sampling frequency, frame period, volume, speed, alignment flag, alpha, beta, half tone; special / uniform / log-uniform arguments) on Condition::default() before any load_model; after every call all getters vs the reference model of the documented clamps. Non-trivial: >= 1 call".into()
+    }
+    fn tape_len(&self, _: Tier) -> usize {
+        64
+    }
+    fn cases(&self, tier: Tier) -> u32 {
+        tier.pick(60_000, 600_000)
+    }
+    fn decode(&self, t: &mut Tape, _: Tier) -> UnloadedCase {
+        let n = t.below(13);
+        let ops = (0..n)
+            .map(|_| match t.below(8) {
+                0 => Op::Alpha(special_f64(t)),
+                1 => Op::Beta(special_f64(t)),
+                2 => Op::Speed(special_f64(t)),
+                3 => Op::HalfTone(special_f64(t)),
+                4 => Op::SamplingFrequency(special_usize(t)),
+                5 => Op::Fperiod(special_usize(t)),
+                6 => Op::Volume(t.uniform(-60.0, 60.0)),
+                _ => Op::Alignment(t.chance(0.5)),
+            })
+            .collect();
+        UnloadedCase { ops }
+    }
+    fn check(&self, c: &UnloadedCase) -> Result<Report, Failure> {
+        let mut cond = Condition::default();
+        let mut model = Model { sf: 0, fp: 0, volume_db: 0.0, thr: vec![], gvw: vec![], speed: 1.0, align: false, alpha: 0.0, beta: 0.0, ht: 0.0 };
+        compare("Condition::default()", &observe(&cond, 0), &model)?;
+        for (i, op) in c.ops.iter().enumerate() {
+            match *op {
+                Op::SamplingFrequency(v) => {
+                    cond.set_sampling_frequency(v);
+                    model.sf = v.max(1);
+                }
+                Op::Fperiod(v) => {
+                    cond.set_fperiod(v);
+                    model.fp = v.max(1);
+                }
+                Op::Volume(v) => {
+                    cond.set_volume(v);
+                    model.volume_db = v;
+                }
+                Op::Speed(v) => {
+                    cond.set_speed(v);
+                    model.speed = if v < 1.0e-6 { 1.0e-6 } else { v };
+                }
+                Op::Alignment(b) => {
+                    cond.set_phoneme_alignment_flag(b);
+                    model.align = b;
+                }
+                Op::Alpha(v) => {
+                    cond.set_alpha(v);
+                    model.alpha = clamp_ref(v, 0.0, 1.0);
+                }
+                Op::Beta(v) => {
+                    cond.set_beta(v);
+                    model.beta = clamp_ref(v, 0.0, 1.0);
+                }
+                Op::HalfTone(v) => {
+                    cond.set_additional_half_tone(v);
+                    model.ht = v;
+                }
+                _ => {}
+            }
+            compare(&format!("unloaded condition after op #{} {:?}", i, op), &observe(&cond, 0), &model)?;
+        }
+        let mut r = Report::new();
+        r.nontrivial = !c.ops.is_empty();
+        r.class(format!("ops:{}", match c.ops.len() { 0 => "0", 1..=4 => "1-4", _ => "5-12" }));
         Ok(r)
     }
 }
